@@ -421,6 +421,8 @@ def m_into_iter_id(it, ctx, callee, args):
     a = args[0]
     if isinstance(a, Tup) and a.name and a.name.startswith("Iter:"):
         return a
+    if isinstance(a, Tup) and a.name and a.name.split("::")[-1].startswith("Drv"):     # adaptors of engines/drivers
+        return a
     if isinstance(a, VecV) and a.kind in ("array", "vec"):      # by-value iteration of an array / Vec
         return Tup((Slice(tuple(a.elems)), usize(0)), name="Iter:copied")
     raise Inconclusive("into_iter of %r (%s)" % (a, callee))
@@ -771,20 +773,60 @@ def m_to_bytes(it, ctx, callee, args):
 # ------------------------------------------------------------------------------------------
 # generic `next()` inside the re-implemented adaptors (engines/drivers/src/adaptors.rs)
 
-@model(r"<I as Iterator>::next")
+@model(r"<[A-Z] as Iterator>::next")
 def m_generic_next(it, ctx, callee, args):
     from .interp import TailCall, FnItem
     st = deref(args[0])
+    if isinstance(st, Tup) and st.name in ITER_NEXT_CALLEE:
+        m = it.find_model(ITER_NEXT_CALLEE[st.name])
+        if m is None or m is m_generic_next:
+            raise Inconclusive("next() of %r: no model in this check's list" % (st.name,))
+        return m(it, ctx, ITER_NEXT_CALLEE[st.name], args)
     if isinstance(st, Tup) and st.name and st.name.startswith("Iter:"):
         if st.name == "Iter:bvec":
             from . import rtmodels as RM
             return RM.r_iter_next(it, ctx, callee, args)
         return m_iter_next(it, ctx, callee, args)
-    if isinstance(st, Tup) and st.name and st.name.split("::")[-1].startswith("DrvFilter"):
-        return TailCall(FnItem("drv_filter_next"), [args[0]])
-    if isinstance(st, Tup) and st.name and st.name.split("::")[-1].startswith("DrvMap"):
-        return TailCall(FnItem("drv_map_next"), [args[0]])
+    if isinstance(st, Tup) and st.name:
+        last = st.name.split("::")[-1]
+        for pre, target in DRV_NEXT:
+            if last.startswith(pre):
+                return TailCall(FnItem(target), [args[0]])
+        # iterator states of other model lists (Iter:chars, Peekable, ...): their own `next` model decides
+        for nm, cal in ITER_NEXT_CALLEE.items():
+            if st.name == nm:
+                m = it.find_model(cal)
+                if m is not None and m is not m_generic_next:
+                    return m(it, ctx, cal, args)
     raise Inconclusive("next() of %r" % (st,))
+
+
+DRV_NEXT = [("DrvFilter", "drv_filter_next"), ("DrvMap", "drv_map_next"), ("DrvEnumerate", "drv_enumerate_next"),
+            ("DrvTakeWhile", "drv_take_while_next"), ("DrvSkip", "drv_skip_next"), ("DrvTake", "drv_take_next"),
+            ("DrvZip", "drv_zip_next"), ("DrvChain", "drv_chain_next")]
+ITER_NEXT_CALLEE = {"Iter:chars": "<std::str::Chars as Iterator>::next", "Iter:char_indices": "<std::str::CharIndices as Iterator>::next",
+                    "Iter:utf16": "<std::str::EncodeUtf16 as Iterator>::next", "Peekable:chars": "<std::iter::Peekable<std::str::Chars> as Iterator>::next"}
+
+
+@model(r"<.* as Iterator>::sum|<.* as (std::iter::|core::iter::)?Sum(<.*>)?>::sum")
+def m_iter_sum(it, ctx, callee, args):
+    """integer sums only: fold(0, +) with the overflow panic of a debug build; the element type is the turbofish"""
+    from .interp import binop
+    m = re.search(r"::sum::<(u8|u16|u32|u64|usize|i8|i16|i32|i64|isize)>", callee)
+    if not m:
+        raise Inconclusive("sum of a non-integer type: " + callee)
+    acc = Int(0, m.group(1))
+    cell = Ref(Cell(args[0], "sum-iter"))
+    for _ in range(100000):
+        o = it.call(ctx, "<I as Iterator>::next", [cell])
+        if o.variant == "None":
+            return acc
+        x = deref(o.fields[0])
+        t = binop("AddWithOverflow", acc, x)
+        if ctx.branch(t.fields[1]):
+            raise Panic("panic: attempt to add with overflow (Iterator::sum)")
+        acc = t.fields[0]
+    raise Inconclusive("sum over an unbounded iterator")
 
 
 def decode_last_char(ctx, el):
